@@ -180,7 +180,7 @@ def gen_cfg(rng, zones=True, predefined=True, bits=None):
     return cfg
 
 
-def gen_program(rng, cfg, n_stmts=None, weights=None, allow_bad=0.1):
+def gen_program(rng, cfg, n_stmts=None, weights=None, allow_bad=0.1, gprefix='gl', extra_defined=(), end_label=True):
     """returns list of stmts (single file)"""
     w = {'label': 3, 'const': 1.5, 'data': 4, 'fill': 1.5, 'zerountil': 1, 'org': 1.5, 'memzone': 0.8, 'align': 1,
          'instr': 4, 'mute': 0.6, 'createZone': 0.5, 'comment': 0.5}
@@ -202,7 +202,7 @@ def gen_program(rng, cfg, n_stmts=None, weights=None, allow_bad=0.1):
         if k == 'label':
             kind = rng.choice([0, 0, 1, 2, 2]) if have_region else rng.choice([0, 0, 1] + ([2] if rng.random() < allow_bad else []))
             if kind == 0:
-                name = f'gl_{nl[0]}'; nl[0] += 1
+                name = f'{gprefix}_{nl[0]}'; nl[0] += 1
             elif kind == 1:
                 name = f'_fl_{nl[1]}'; nl[1] += 1
             else:
@@ -219,9 +219,9 @@ def gen_program(rng, cfg, n_stmts=None, weights=None, allow_bad=0.1):
                 tr.local_names = getattr(tr, 'local_names', []) + [name]
             tr.env[name] = tr.cur
         elif k == 'const':
-            name = f'kc_{nl[3]}'; nl[3] += 1
+            name = f'k{gprefix}_{nl[3]}'; nl[3] += 1
             v = rng.randint(0, 300)
-            cn = [x for x in names if x.startswith('kc_') or x.startswith('PK_')]
+            cn = [x for x in names if x.startswith('k' + gprefix + '_') or x.startswith('PK_')]
             stmts.append({'k': 'const', 'name': name, 'e': simple_expr(rng, v, cn, tr.env)})
             tr.env[name] = v
         elif k == 'data':
@@ -232,7 +232,7 @@ def gen_program(rng, cfg, n_stmts=None, weights=None, allow_bad=0.1):
                 v = rng.choice([rng.randint(0, 255), rng.randint(-300, 70000), rng.randint(0, 1 << (8 * wd))])
                 if rng.random() < 0.25:
                     # forward / backward reference to a label that may not exist yet
-                    vals.append(('label', rng.choice(['gl_0', 'gl_1', '_fl_0', '.lc_0', 'end_lbl'])))
+                    vals.append(('label', rng.choice([gprefix + '_0', gprefix + '_1', '_fl_0', '.lc_0', 'end_lbl'] + list(extra_defined))))
                 else:
                     vals.append(simple_expr(rng, v, names, tr.env))
             stmts.append({'k': 'data', 'w': wd, 'vals': vals})
@@ -306,7 +306,7 @@ def gen_program(rng, cfg, n_stmts=None, weights=None, allow_bad=0.1):
                 if rng.random() < allow_bad * 0.5:
                     v = rng.choice([hi + 1, lo - 1])
                 if rng.random() < 0.2:
-                    args.append([('label', rng.choice(['gl_0', 'gl_1', '_fl_0', '.lc_0', '.lc_1', 'end_lbl'])), wd])
+                    args.append([('label', rng.choice([gprefix + '_0', gprefix + '_1', '_fl_0', '.lc_0', '.lc_1', 'end_lbl'] + list(extra_defined))), wd])
                 else:
                     args.append([simple_expr(rng, v, names, tr.env), wd])
             stmts.append({'k': 'instr', 'mn': mn, 'args': args})
@@ -328,11 +328,11 @@ def gen_program(rng, cfg, n_stmts=None, weights=None, allow_bad=0.1):
                 tr.zones[name] = [s, e, s]
         elif k == 'comment':
             stmts.append({'k': 'comment'})
-    if rng.random() < 0.6:
+    if end_label and rng.random() < 0.6:
         stmts.append({'k': 'label', 'name': 'end_lbl'})
     # references to labels that never get defined are kept only rarely (they are the "unresolved" fault)
     defined = [s['name'] for s in stmts if s['k'] == 'label' and not s['name'].startswith('.')]
-    defined += [n for n, _ in cfg.get('preConsts', [])] + [d[0] for d in cfg.get('preData', [])]
+    defined += [n for n, _ in cfg.get('preConsts', [])] + [d[0] for d in cfg.get('preData', [])] + list(extra_defined)
 
     def fix(t):
         if t[0] == 'label' and t[1] not in defined and not (t[1].startswith('.') and rng.random() < 0.3):
